@@ -1,6 +1,7 @@
 import SFV.Proofs.HwCompile
 import SFV.Proofs.HwMerge
 import SFV.Proofs.HwTemplate
+import SFV.Proofs.HwChecks
 
 /-!
 # C12 — hardware compilation conforms to the device and preserves the experiment
@@ -156,6 +157,76 @@ example : compiledMZ 5 = [0, 2, 1, 0, 3, 2, 1, 0, 3, 2] ∧ layoutMZ 5 = [0, 2, 
 example : ∀ N ∈ List.range 8, ∀ w ∈ List.range (2 * N + 1),
     onWire w (xCompiled N (List.range N).reverse) = onWire w (xLayout N) := by
   decide +kernel
+
+/-! ## Xunitary / Xcov: validation of the extracted unitary / adjacency matrix -/
+
+/-- **allclose_exact.**  The model's comparison is `numpy.allclose`'s inequality `|a − b| ≤ atol + rtol·|b|`
+(`atol = 1e-8`, `rtol = 1e-5`), decided without square roots: it agrees with the inequality whenever the two
+moduli are rational, against zero it is `|a|² ≤ atol²`, and it is reflexive. -/
+theorem allclose_exact :
+    (∀ (a b : Cq) (d nb : Rat), 0 ≤ d → d * d = (a.1 - b.1) * (a.1 - b.1) + (a.2 - b.2) * (a.2 - b.2) →
+      0 ≤ nb → nb * nb = b.1 * b.1 + b.2 * b.2 → (closeC a b = true ↔ d ≤ atolNp + rtolNp * nb)) ∧
+    (∀ a : Cq, closeC a (0, 0) = true ↔ a.1 * a.1 + a.2 * a.2 ≤ atolNp * atolNp) ∧
+    (∀ A : CM, allcloseM A A = true) :=
+  ⟨closeC_iff, closeC_zero, allcloseM_refl⟩
+
+example : closeC (3 / 5 + 3 / 1000000, 4 / 5 + 4 / 1000000) (3 / 5, 4 / 5) = true ∧
+    closeC (3 / 5 + 9 / 1000000, 4 / 5 + 12 / 1000000) (3 / 5, 4 / 5) = false := by decide +kernel
+
+/-- **xunitary_verdict.**  For every symplectic matrix handed over by `GaussianUnitary` (any size, acting on any
+subset of the modes): `Xunitary` goes on to the decomposition exactly when `S Sᵀ ≈ 1`, both off-diagonal blocks of
+`U = S[:n,:n] − i S[:n,n:]` (after expansion to all modes) vanish and `U11 ≈ U22`, all in `numpy.allclose`'s sense;
+otherwise the error is the first of "not an interferometer" / "cannot mix" / "must be identical" whose test fails. -/
+theorem xunitary_verdict (half : Nat) (S : List (List Rat)) (used : List Nat) :
+    ((∃ U11, xunitaryCheck half S used = .ok U11) ↔
+      allcloseM (gramR S.length S) (identM S.length) = true ∧
+      allcloseM (blockM (xunitaryU half S used) 0 half half (2 * half)) (zerosM half half) = true ∧
+      allcloseM (blockM (xunitaryU half S used) half (2 * half) 0 half) (zerosM half half) = true ∧
+      allcloseM (blockM (xunitaryU half S used) 0 half 0 half)
+        (blockM (xunitaryU half S used) half (2 * half) half (2 * half)) = true) ∧
+    (∀ e, xunitaryCheck half S used = .error e →
+      (e = .notInterferometer ∧ allcloseM (gramR S.length S) (identM S.length) = false) ∨
+      (e = .mix ∧ (allcloseM (blockM (xunitaryU half S used) 0 half half (2 * half)) (zerosM half half) = false ∨
+        allcloseM (blockM (xunitaryU half S used) half (2 * half) 0 half) (zerosM half half) = false)) ∨
+      (e = .notIdentical ∧ allcloseM (blockM (xunitaryU half S used) 0 half 0 half)
+        (blockM (xunitaryU half S used) half (2 * half) half (2 * half)) = false)) :=
+  ⟨xunitaryCheck_ok_iff half S used, fun e h => xunitaryCheck_error half S used e h⟩
+
+/-- a rotation by (3/5, 4/5) on mode 0 only, expanded to two modes: asymmetric, so "must be identical" -/
+example : (match xunitaryCheck 1 [[3 / 5, -4 / 5], [4 / 5, 3 / 5]] [0] with
+    | .error e => decide (e = .notIdentical) | .ok _ => false) = true ∧
+    (match xunitaryCheck 1 [[3 / 5, 0, -4 / 5, 0], [0, 3 / 5, 0, -4 / 5], [4 / 5, 0, 3 / 5, 0], [0, 4 / 5, 0, 3 / 5]] [0, 1] with
+    | .error _ => false | .ok U11 => decide (U11 = [[(3 / 5, 4 / 5)]])) = true := by decide +kernel
+
+/-- **xcov_verdict.**  `Xcov` hands `B01` to `takagi` exactly when `B00 ≈ 0`, `B11 ≈ 0` and `B01 ≈ B10` (blocks of
+`A[:n, :n]`), for every `A` matrix. -/
+theorem xcov_verdict (half : Nat) (A : CM) :
+    (∃ B01, xcovCheck half A = .ok B01) ↔
+      allcloseM (blockM (blockM A 0 (2 * half) 0 (2 * half)) 0 half 0 half) (zerosM half half) = true ∧
+      allcloseM (blockM (blockM A 0 (2 * half) 0 (2 * half)) half (2 * half) half (2 * half)) (zerosM half half) = true ∧
+      allcloseM (blockM (blockM A 0 (2 * half) 0 (2 * half)) 0 half half (2 * half))
+        (blockM (blockM A 0 (2 * half) 0 (2 * half)) half (2 * half) 0 half) = true :=
+  xcovCheck_ok_iff half A
+
+example : (match xcovCheck 1 [[(0, 0), (1 / 2, 0), (0, 0), (0, 0)], [(1 / 2, 0), (0, 0), (0, 0), (0, 0)],
+      [(0, 0), (0, 0), (0, 0), (1 / 2, 0)], [(0, 0), (0, 0), (1 / 2, 0), (0, 0)]] with
+    | .ok B01 => decide (B01 = [[(1 / 2, 0)]]) | .error _ => false) = true := by decide +kernel
+
+/-- **xcov_resynthesis.**  Two-mode squeezers `tanh r = T` on the pairs `(i, i+N)` followed by the same
+interferometer `U` on both halves have adjacency block `[[0, U T Uᵀ], [U T Uᵀ, 0]]`; with `U`, `T` Takagi factors of
+the source's `B01` this is the source's `[[0, B01], [B01, 0]]` — for every size, over every commutative ring.
+(That the `A` matrix determines the photon statistics and transforms by congruence under passive optics is the
+documented specification, not proved here.) -/
+theorem xcov_resynthesis {m : Type} [Fintype m] [DecidableEq m] {K : Type} [CommRing K]
+    (U T B01 : Matrix m m K) (h : U * T * U.transpose = B01) :
+    Matrix.fromBlocks U 0 0 U * Matrix.fromBlocks 0 T T 0 * (Matrix.fromBlocks U 0 0 U).transpose
+      = Matrix.fromBlocks 0 B01 B01 0 :=
+  xcov_block_algebra U T B01 h
+
+example : (Matrix.of fun i j => if i = j then 0 else 1 : Matrix (Fin 2) (Fin 2) Int)
+      * (Matrix.of fun i j => if i = j then (i.val + 2 : Int) else 0)
+      * Matrix.transpose (Matrix.of fun i j => if i = j then 0 else 1 : Matrix (Fin 2) (Fin 2) Int)
+    = (Matrix.of fun i j => if i = j then (3 - i.val : Int) else 0) := by decide +kernel
 
 /-! ## Xunitary: merging repeated two-mode squeezers -/
 
